@@ -22,7 +22,9 @@ for d in sorted(glob.glob("/verif/seeded/C*")):
     caught = [c for (m, c), r in latest.items() if m == mid and r["caught"]]
     missed = [c for (m, c), r in latest.items() if m == mid and not r["caught"]]
     meta["property"] = mid.split("-")[0]
-    meta["round"] = 2 if "-r2" in mid else 1
+    import re
+    m = re.search(r"-r(\d)m", mid)
+    meta["round"] = int(m.group(1)) if m else 1
     meta["verif"] = {
         "confirmed_here": bool(conf.get("confirmed")),
         "what_was_run": "confirm_seeded.py in a scratch worktree of /repo at %s: git apply %s; go build; unedited suite (389 stable tests pass: %s); demonstration with the change (exit %s) and without (exit %s)" % (
